@@ -571,6 +571,21 @@ def run(ctx):
                 st.value.args and norm(st.value.args[0]) == "reserved_keywords":
             val = st.value.args[1] if len(st.value.args) > 1 else ast.Constant(value=1)
             seeded = (norm(st.targets[0]), val)
+    if seeded is None:
+        # the constructor written another way (a loop, update(), ...): interpreted on two keywords, the registry is the attribute
+        # that then holds both with a non-zero count
+        from .. import pyconst as _pcd
+        me_ = _pcd.NS()
+        try:
+            it_ = _pcd.Interp({"self": me_, "name_dict": {}, "reserved_keywords": {"module", "wire"}}, exact=True)
+            it_.run(init.body)
+            for k_, v_ in me_.items():
+                if isinstance(v_, dict) and not isinstance(v_, _pcd.NS) and set(v_) == {"module", "wire"} and all(isinstance(x, int) and x for x in v_.values()):
+                    seeded = ("self." + k_, ast.Constant(value=1))
+                elif isinstance(v_, (set, frozenset)) and set(v_) == {"module", "wire"}:
+                    seeded = ("self." + k_, ast.Constant(value=1))
+        except Exception:       # noqa: not interpretable -> the shape reading above stands
+            pass
     ok = seeded is not None and seeded[0] in regs_used and isinstance(seeded[1], ast.Constant) and bool(seeded[1].value)
     ctx.ob("C02.d", NAMER, "SignalNamespace.__init__", "registry seeded non-zero from reserved_keywords", ok,
            "" if ok else f"seed = {(seeded[0], norm(seeded[1])) if seeded else None}: a keyword used as a signal name would be emitted verbatim", init)
